@@ -37,11 +37,11 @@ theorem hookF_K (hk : HK) (hnm : mainHK hk = false) (base : FCfg → Res) (hbase
   · have hx' : K a0 x' := h.of_armok hl hao hf
     have hb := hbase x' hx'
     rcases hcase with ⟨hhk, _, _, _, _, hcase⟩ | hcase
-    · rcases hcase with ⟨y, e, hb', hy⟩ | ⟨y, y', hb', hy, hu1, _, hu3, _⟩
-      · rw [hy]; rw [hb'] at hb; exact hb
+    · rcases hcase with ⟨y, yy, e, hb', hy, huu, hfyy⟩ | ⟨y, y', hb', hy, hu1, _, hu3, _⟩
+      · rw [hy]; rw [hb'] at hb; exact K.congr hb huu.1 huu.2.1 hfyy
       · rw [hy]; rw [hb'] at hb; exact K.fire hb hu1 hu3 (by rw [hhk]; exact hnm)
-    · rcases hcase with ⟨y, e, hb', hy⟩ | ⟨y, y', e, hb', hy, _, hu, hfy, _⟩
-      · rw [hy]; rw [hb'] at hb; exact hb
+    · rcases hcase with ⟨y, yy, e, hb', hy, huu, hfyy⟩ | ⟨y, y', e, hb', hy, _, hu, hfy, _⟩
+      · rw [hy]; rw [hb'] at hb; exact K.congr hb huu.1 huu.2.1 hfyy
       · rw [hy]; rw [hb'] at hb; exact K.congr hb hu.1 hu.2.1 hfy
 
 theorem doPauseHooks_st (c : Cfg) : (doPauseHooks c).st = c.st := rfl
@@ -164,12 +164,18 @@ theorem hookF_TQ (hk : HK) (hnm : mainHK hk = false) (base : FCfg → Res)
   · have hb := hbase x' hao (by rw [hl]; exact htr)
     have hxx' : TQ a0 x x' := (TQ.rfl' h).congr hl hao (fun _ => hf)
     rcases hcase with ⟨hhk, _, _, _, _, hcase⟩ | hcase
-    · rcases hcase with ⟨y, e, hb', hy⟩ | ⟨y, y', hb', hy, hu1, _, hu3, _⟩
-      · rw [hy]; rw [hb'] at hb; exact hxx'.trans' hb
+    · rcases hcase with ⟨y, yy, e, hb', hy, huu, hfyy⟩ | ⟨y, y', hb', hy, hu1, _, hu3, _⟩
+      · rw [hy]; rw [hb'] at hb
+        have hya : ArmOk a0 yy :=
+          ⟨fun b hb'' => hb.2.1.1 b (by rw [← hb'']; exact huu.2.1.symm), fun hf' => by rw [huu.2.1]; exact hb.2.1.2 (by rw [← hfyy]; exact hf')⟩
+        exact (hxx'.trans' hb).congr huu.1 hya (fun _ => hfyy)
       · rw [hy]; rw [hb'] at hb
         exact (hxx'.trans' hb).congr hu1 (ArmOk.of_none hu3) (fun hm => by rw [hhk, hnm] at hm; cases hm)
-    · rcases hcase with ⟨y, e, hb', hy⟩ | ⟨y, y', e, hb', hy, _, hu, hfy, _⟩
-      · rw [hy]; rw [hb'] at hb; exact hxx'.trans' hb
+    · rcases hcase with ⟨y, yy, e, hb', hy, huu, hfyy⟩ | ⟨y, y', e, hb', hy, _, hu, hfy, _⟩
+      · rw [hy]; rw [hb'] at hb
+        have hya : ArmOk a0 yy :=
+          ⟨fun b hb'' => hb.2.1.1 b (by rw [← hb'']; exact huu.2.1.symm), fun hf' => by rw [huu.2.1]; exact hb.2.1.2 (by rw [← hfyy]; exact hf')⟩
+        exact (hxx'.trans' hb).congr huu.1 hya (fun _ => hfyy)
       · rw [hy]; rw [hb'] at hb
         have hya : ArmOk a0 y' :=
           ⟨fun b hb'' => hb.2.1.1 b (by rw [← hb'']; exact hu.2.1.symm), fun hf' => by rw [hu.2.1]; exact hb.2.1.2 (by rw [← hfy]; exact hf')⟩
